@@ -91,6 +91,16 @@ class CfgImpl(object):
             v = getattr(self.cfg, name)
         except Exception as e:
             return ('raised', type(e).__name__)
+        # option names match case-insensitively: any spelling must read the same thing
+        for alt in (name.lower(), name.upper()):
+            if alt == name:
+                continue
+            try:
+                v2 = getattr(self.cfg, alt)
+            except Exception as e:
+                return ('other-spelling-raised', alt, type(e).__name__)
+            if type(v2) is not type(v) or v2 != v:
+                return ('other-spelling-differs', alt, repr(v2), repr(v))
         if v == DEFAULT_VALUE:
             return ('unset',)
         return v
